@@ -15,6 +15,7 @@ func init() {
 		},
 		NotDecided: []string{"aggregate arithmetic (Welford, NaN handling)", "final ordering for ties", "container/heap correctness"},
 		Rules: func(r *Run) {
+			ruleAvgInfinityGuard(r)
 			ruleGrouperSelection(r)
 			ruleVectorOps(r)
 			ruleKeyedStores(r)
